@@ -23,6 +23,7 @@ def sh(cmd, **kw):
 
 def main():
     pid, src = sys.argv[1], sys.argv[2]
+    offset = int(sys.argv[3]) if len(sys.argv) > 3 else 0
     notes = open(os.path.join(src, "notes.md")).read() if os.path.exists(os.path.join(src, "notes.md")) else ""
     for patch in sorted(glob.glob(os.path.join(src, "patch_*.diff"))):
         i = re.search(r"patch_(\d+)\.diff", patch).group(1)
@@ -46,7 +47,7 @@ def main():
             ok = r0.returncode == 0 and rb.returncode == 0 and r1.returncode != 0
             print(pid, i, "CONFIRMED" if ok else "REJECTED", ran)
             if ok:
-                d = os.path.join(VERIF, "seeded", "%s-%s" % (pid, i))
+                d = os.path.join(VERIF, "seeded", "%s-%d" % (pid, int(i) + offset))
                 os.makedirs(d, exist_ok=True)
                 shutil.copy(patch, os.path.join(d, "patch.diff"))
                 shutil.copy(demo, os.path.join(d, "demo.py"))
